@@ -104,6 +104,12 @@ def record(tw, rng, n_membranes, stats, scratch=None):
             u = rng.random()
             if u < 0.25:
                 T = rng.choice(exs)["T"]                       # exactly at an experiment
+            elif u < 0.4:
+                # a hair away from an experiment (one ulp .. 1e-4 relative): not AT it, so the Arrhenius law applies in full
+                T = rng.choice(exs)["T"] * (1.0 + rng.choice([-1.0, 1.0]) * gen.logu(rng, 3e-16, 1e-4))
+                d = sorted(abs(e["T"] - T) for e in exs)
+                if len(d) >= 2 and d[1] - d[0] <= 1e-6:
+                    T = rng.uniform(260.0, 420.0)
             else:
                 for _ in range(50):
                     T = rng.uniform(260.0, 420.0)
